@@ -56,6 +56,9 @@ inductive Discharge
   /-- `hash(self.uuid)` is the body of a `__hash__` method (Gen fact): Python uses it to place the object in a dict / set;
   dict iteration is insertion-ordered, and every iteration of a set is an inventory site of its own. -/
   | hashNotIterated
+  /-- `hash(x)` as an expression statement inside `try … except TypeError` (Gen fact `valueDiscarded`): the value is thrown away; only
+  whether the call raises — hashability, a property of the argument's TYPE, not of PYTHONHASHSEED — reaches the program -/
+  | hashValueDiscarded
   /-- a module outside the import closure of session/environment.py, session/ray_envs.py and game/game.py (Gen fact) -/
   | offline
   /-- `for x in sorted(s)` -/
@@ -98,7 +101,7 @@ inductive Basis | lemma | mechanical | trusted | openFinding
 def Discharge.basis : Discharge → Basis
   | .readingLenF9 => .openFinding
   | .fixedLenSecret | .clockNotRead | .seededRng | .seeding | .unseededByConfig | .offline | .setDeclCovered | .setEmpty
-  | .setSingleton => .mechanical
+  | .setSingleton | .hashValueDiscarded => .mechanical
   | .hashNotIterated | .setMembershipOnly | .setIntHash | .idTextEqOnly => .trusted
   | _ => .lemma
 
@@ -119,6 +122,8 @@ def Discharge.supportedBy : Discharge → Fact → Bool
   | .unseededByConfig, _ => false
   | .hashNotIterated, .hashDunder _ => true
   | .hashNotIterated, _ => false
+  | .hashValueDiscarded, .valueDiscarded => true
+  | .hashValueDiscarded, _ => false
   | .offline, .offlineModule => true
   | .offline, _ => false
   | .setMembershipOnly, .kwarg callee kw => callee == "model_dump" && kw == "exclude"
@@ -263,6 +268,7 @@ def table : List (Site × Discharge) := [
   (⟨"simulator/__init__.py", "_SimOutput.__init__", .clock, "datetime.now()", 0⟩, .clockNotRead),
   (⟨"simulator/__init__.py", "_SimOutput.__init__", .clock, "datetime.now()", 1⟩, .clockNotRead),
   (⟨"simulator/core.py", "SimComponent", .uuid, "uuid4()", 0⟩, .idToken),
+  (⟨"simulator/core.py", "_is_hashable", .hashBuiltin, "hash(request_key)", 0⟩, .hashValueDiscarded),
   (⟨"simulator/file_system/file_system.py", "FileSystem.copy_file", .setEscape, "call model_dump <- {'uuid', 'folder_id', 'folder_name', 'sim_path'}", 0⟩, .setMembershipOnly),
   (⟨"simulator/file_system/file_type.py", "FileType.random", .pyRandom, "choice(list(FileType))", 0⟩, .seededRng),
   (⟨"simulator/network/hardware/base.py", "NetworkInterface.__hash__", .hashBuiltin, "hash(self.uuid)", 0⟩, .hashNotIterated),
